@@ -28,6 +28,11 @@ for r in sorted(set(rnd(m) for m in rows)):
                    "repairs of round 1 generalised along the axes round 1 happened to exercise, and round 2 found others (a type\n"
                    "switch instead of two assertions, a bulk library call instead of a loop, the predicate written out at its only call\n"
                    "site, a helper with several results, `sort.Slice`, `!=` loop conditions).\n")
+    elif r==3:
+        out.append("Round 3 met the checker after the repairs of rounds 1 and 2 and after the rules added for the third seeding round\n"
+                   "(R01h, R02g, R03g/h, R05i, R08f, R10g, R13d/e, R15h/i, R16g/h, R19e/f). The rate did not fall: each round finds\n"
+                   "spellings the earlier ones did not (recursion for a loop, a release function returned by the acquiring function, a\n"
+                   "table for an or-chain, a named deferred function, a single exit through a named result, two loops for one).\n")
     out.append("\n| id | restructuring | alarms at first contact |\n|---|---|---|\n")
     for m in rs:
         a=', '.join(m.get('alarms_at_first_contact',[])) or '—'
